@@ -324,6 +324,24 @@ func (c *Cluster) DoNoDrain(s Step) (out Outcome) {
 	return out
 }
 
+// DoInside runs a client command from inside Main (from a hook that what Main runs has called).
+func (c *Cluster) DoInside(s Step) (out Outcome) {
+	prev := c.curOut
+	c.curOut = &out
+	c.mu.Lock()
+	was := c.inMain
+	c.inMain = true
+	c.mu.Unlock()
+	defer func() {
+		c.curOut = prev
+		c.mu.Lock()
+		c.inMain = was
+		c.mu.Unlock()
+	}()
+	c.do(s, &out)
+	return out
+}
+
 // Main runs f as the scheduler (Raft applies made inside go straight to the log).
 func (c *Cluster) Main(f func()) { c.main(f) }
 
